@@ -411,6 +411,11 @@ def _check_limit(c):
     return devs
 
 
+from ..names_check import names_clause  # noqa: E402
+
+if names_clause("C03") is not None:
+    CLAUSES.append(names_clause("C03"))
+
 PROPERTY = Property(
     id="C03",
     level="exploration",
